@@ -58,7 +58,7 @@ class Lock:
 
 def build_harness(profile="release", hooks=True, features=()):
     """build the implementation-side harness against /repo's working tree"""
-    tdir = os.path.join(WORK, "target", "on" if hooks else "off")
+    tdir = os.path.join(WORK, "target", ("on" if hooks else "off") + ("-" + "-".join(features) if features else ""))
     env = dict(ENV, CARGO_TARGET_DIR=tdir)
     if hooks:
         env["RUSTFLAGS"] = "--cfg gosyn_verif"
@@ -88,6 +88,22 @@ def regen(gv):
     rc, out, err = sh([sys.executable, os.path.join(ROOT, "tools", "regen.py"), gv], timeout=300)
     if rc != 0:
         raise TieBroken("table regeneration failed", out + err)
+    # the serde schema of ast.rs / token.rs (C20); when the translator does not understand the sources the
+    # obligation file is replaced by one that cannot compile, so only C20's obligations break
+    path = os.path.join(COQ, "gen", "GenSchema.v")
+    tmp = path + ".new"
+    rc2, out2, err2 = sh([sys.executable, os.path.join(ROOT, "tools", "regen_schema.py"), "--out", tmp], timeout=300)
+    if rc2 != 0 or not os.path.exists(tmp):
+        text = ("(* GENERATED: tools/regen_schema.py could not translate the crate's types:\n%s *)\n"
+                "Lemma repo_schema_translated : False.\nProof. exact I. Qed.\n" % (out2 + err2)[-1500:].replace("*)", "* )"))
+    else:
+        text = open(tmp).read()
+    if os.path.exists(tmp):
+        os.remove(tmp)
+    old = open(path).read() if os.path.exists(path) else None
+    if old != text:
+        with open(path, "w") as f:
+            f.write(text)
     return out.strip()
 
 
